@@ -84,7 +84,7 @@ def emitter_obligations(rep, tier):
             rep.extra['emitted']['%s %s->%s' % (b, j, t)] = down_txt
             fn = '%s Bitcast emitter (%s), abi::cast(%s,%s)=%s / cast(%s,%s)=%s' % (
                 b, SRC[b], t, j, casts[(t, j)]['bitcast'], j, t, casts[(j, t)]['bitcast'])
-            for kind in ('lift_side_is_wrap', 'round_trip'):
+            for kind in ('lift_side_is_wrap', 'round_trip', 'lower_side_keeps_payload_bits'):
                 oid = 'emit.%s.%s<->%s.%s' % (b, t, j, kind)
                 ob = Obligation(oid, fn, 'property', 'z3')
                 try:
@@ -108,6 +108,14 @@ def emitter_obligations(rep, tier):
                             dv = store(dv, Tt)
                             goal = '(= %s %s)' % (dv.smt, exprvc.ext('y', Tj.width, Tt.width, False))
                             decls = [('y', Tj.width)] + fresh
+                        elif kind == 'lower_side_keeps_payload_bits':
+                            # implied by the other two when both texts are in the modelled subset; decided on its own so that a
+                            # lowering that is wrong is refuted even when the lifting text is ill-typed / not modelled
+                            x = exprvc.Val('x', Tt)
+                            uv, fresh = exprvc.translate(b, p, up_txt, {'x': x}, extra)
+                            uv = store(uv, Tj)
+                            goal = '(= %s x)' % exprvc.ext(uv.smt, Tj.width, Tt.width, False)
+                            decls = [('x', Tt.width)] + fresh
                         else:
                             x = exprvc.Val('x', Tt)
                             uv, fresh = exprvc.translate(b, p, up_txt, {'x': x}, extra)
@@ -137,8 +145,8 @@ def emitter_obligations(rep, tier):
                                          'how': 'z3 model of the negated obligation over the emitted text; evaluated under the %s semantics table' % b,
                                          'smt_query': q}
                             ob.detail = ('%s: for %s = 0x%x the emitted %s does not %s (pointer width %d)\n lowering text: %s\n lifting text: %s' % (
-                                oid, var, val, 'lifting expression' if var == 'y' else 'lowering followed by lifting',
-                                'return the low %d bits of the joined slot' % Tt.width if var == 'y' else 'return the payload', p, up_txt, down_txt))
+                                oid, var, val, 'lifting expression' if var == 'y' else ('lowering expression' if kind == 'lower_side_keeps_payload_bits' else 'lowering followed by lifting'),
+                                'return the low %d bits of the joined slot' % Tt.width if var == 'y' else ('keep the payload bits in the low bits of the joined slot' if kind == 'lower_side_keeps_payload_bits' else 'return the payload'), p, up_txt, down_txt))
                             break
                         raise exprvc.Unsupported('z3 answered %s: %s' % (res, model))
                     else:
